@@ -171,7 +171,9 @@ def judge(logs, order, obs, pairs=None):
                                   what="reply of request %d differs: %s vs %s" % (i, x, y)))
             elif "d" in what and A["dump"] != B["dump"]:
                 fails.append(dict(log=lid, a=b, b=a, dim=dim, kind="dump", what="logical dumps differ"))
-            elif "d" in what and A["raw"] != B["raw"] and dim in ("batching", "replay", "engine", "rerun"):
+            elif "d" in what and A["raw"] != B["raw"] and dim in ("batching", "replay", "engine", "rerun") \
+                    and "\trocksdb\t" not in vs.get(a, "") + vs.get(b, ""):
+                # (the raw listing of a rocksdb store is cut short by its prefix extractor: not compared)
                 st["raw_only_diffs"] += 1   # same user-visible data, different engine bytes: noted, not a violation
     return fails, st
 
@@ -343,7 +345,7 @@ def run(ctx):
         raise SystemExit(2)
     R = Runner(ctx)
 
-    nlogs, llen = (300, 120) if quick else (2500, 140)
+    nlogs, llen = (300, 120) if quick else (600, 140)
     jobs = []
     if ctx.replay:
         rp = json.load(open(ctx.replay))
@@ -421,7 +423,7 @@ def run(ctx):
                                 replies=(obs.get(vids[0]) or {}).get("replies", "")[:300]))
         # a second PROCESS on the same logs (Go randomises map iteration per process and per loop)
         if sub == "fresh" and not ctx.replay:
-            n2 = 40 if quick else 300
+            n2 = 40 if quick else 100
             d2, err = R.run("fresh-p2", "-seed %d -n %d -len %d -tier %s" % (ctx.seed, n2, llen, ctx.tier))
             if d2 is None:
                 log("HARNESS RUN FAILED (second process):\n" + err[-3000:])
